@@ -2,7 +2,7 @@
    Property theorems only; each is closed by [exact] of a lemma proved elsewhere. *)
 From Coq Require Import List NArith Arith String.
 Import ListNotations.
-From BB Require Import Ebnf Chars Lexer G4Data AtnData EbnfP LexerP ArtefactsP.
+From BB Require Import Ebnf Chars Lexer Syntax G4Data AtnData EbnfP LexerP LrecP ArtefactsP GrammarP.
 
 (* (a) the oracles: for every character string the model lexer returns the token sequence prescribed by
    the grammar file (longest match, earliest rule wins ties), and it is the only such sequence *)
@@ -18,6 +18,19 @@ Theorem C14_recognise_correct : forall (toks:list nat) (K F:nat) b,
   (b = true <-> M nat nat Nat.eqb pg toks (Ref start_rule) 0 (List.length toks)).
 Proof. exact (fun toks K F b => recognise_correct nat nat Nat.eqb pg toks K F (Ref start_rule) b). Qed.
 Print Assumptions C14_recognise_correct.
+
+(* ... and that language is the language of the grammar AS WRITTEN, whose `expression` rule is left-recursive
+   (the translator only regroups its alternatives into prim | pre E | E bin E; the loop form is proved equivalent) *)
+Theorem C14_recognise_correct_lr : forall (toks:list nat) (K F:nat) b,
+  recognise nat nat Nat.eqb pg toks K F (Ref start_rule) = Some b ->
+  (b = true <-> M nat nat Nat.eqb pg_lr toks (Ref start_rule) 0 (List.length toks)).
+Proof. exact recognise_correct_lr. Qed.
+Print Assumptions C14_recognise_correct_lr.
+
+(* the token kinds used by the model's parser are the token types of the grammar file *)
+Theorem C14_tk_table_ok : map (fun p => tk_name (tk_of_nat (fst p))) token_names = map snd token_names.
+Proof. exact tk_table_ok. Qed.
+Print Assumptions C14_tk_table_ok.
 
 (* (b) artefact identities, on the data regenerated from the working tree *)
 Theorem C14_atn_py_eq_cpp : atn_lexer_py = atn_lexer_cpp /\ atn_parser_py = atn_parser_cpp.
